@@ -23,6 +23,22 @@ def regenerate(ctx):
     regenerate_core()
 
 
+def prove_core(ctx, prop):
+    """build the property's proofs; when they break, still try to build the executable model alone so
+    that the search for a failing input can use it.  Returns the proof failure (or None)."""
+    from harness.common import coq_make
+    ctx.extra['model_ok'] = True
+    try:
+        ctx.prove(prop, extra_targets=['theories/Core/Corr.vo', 'theories/Core/Cost.vo'])
+        return None
+    except CoqFailure as e:
+        try:
+            coq_make(['theories/Core/Corr.vo'])
+        except CoqFailure:
+            ctx.extra['model_ok'] = False
+        return e
+
+
 def run_stream(ctx, n, depth, oracle, entries=C.ALL_ENTRIES, shard=300, gen=None, corpus=True):
     """generate, run on both sides, report; oracle(case, res) -> list of (shape, what) property failures"""
     cases = (gen or C.gen_cases)(ctx.rng, n, depth, entries=entries)
@@ -43,7 +59,7 @@ def run_stream(ctx, n, depth, oracle, entries=C.ALL_ENTRIES, shard=300, gen=None
             for shape, what, extra in oracle(case, res):
                 failures += 1
                 ctx.report(shape, {'case': case, 'observed': extra, 'how': 'harness/impl/core_impl.py'}, what)
-        bad = C.evaluate(ctx, str(lo), part, obs)
+        bad = C.evaluate(ctx, str(lo), part, obs) if ctx.extra.get('model_ok', True) else []
         for ci, di in bad[:5]:
             failures += 1
             case = dict(part[ci], value=obs[ci].get('value_norm', part[ci]['value']))
@@ -66,6 +82,8 @@ def structural_phase(ctx, n, depth=4):
     model generator produces; a mismatch is followed by a focused behavioural search on that hint"""
     from harness import coreir as IR
     hm = [(IR.gen_hint(ctx.rng, ctx.rng.choice([1, 2, 3, depth])), ctx.rng.random() < 0.8) for _ in range(n)]
+    if not ctx.extra.get('model_ok', True):
+        return 0
     bad, errors, terms = C.structural(ctx, 'st', hm)
     ctx.extra['structural_hints_compared'] = len(hm) - len(errors)
     ctx.evaluations += len(hm)
@@ -132,11 +150,7 @@ def run(ctx):
         'correspondence, not proved)',
     ]
     regenerate(ctx)
-    proof_err = None
-    try:
-        ctx.prove(PROP, extra_targets=['theories/Core/Corr.vo', 'theories/Core/Cost.vo'])
-    except CoqFailure as e:
-        proof_err = e
+    proof_err = prove_core(ctx, PROP)
     n = {'quick': 260, 'thorough': 6000}[ctx.tier]
     try:
         failures = structural_phase(ctx, {'quick': 300, 'thorough': 6000}[ctx.tier])
